@@ -24,6 +24,9 @@ CHECKS = {
  'C01': dict(cat='fault_enumeration', tech='deterministic simulation with fault injection: simulated-disk damage of source files x module schedules, full CLI runs',
    text='Containment part of C01. The real CLI entry point (options, model build, HTML, search index, inventory) runs in a forked child on generated multi-module worlds and on copies of the maintainers test packages after a simulated disk damaged one or two source files (torn, zero-filled tail, bit flips, lost, duplicated block, misdirected write, garbage, NUL bytes, cut inside a UTF-8 sequence), under a seeded processing schedule so that a broken module is reached at top level or on demand from inside another analysis. Oracle: main returns 0, 2 or 3, never raises or hangs; every analysed file that no longer parses is named at the start of a message; the summary, search and inventory files exist; and, when all damage is unparsable, every definition of every undamaged module is documented exactly once and appears on its page. Thorough tier enumerates every truncation offset of small files.',
    note='The "for all source trees" half of the quantifier is input space and only sampled. I/O errors are not injected (not promised). Two aborts found on valid-but-unusual inputs were repaired in /repo.', ref='DESIGN.md 3/C01'),
+ 'C17': dict(cat='fault_enumeration', tech='deterministic simulation with fault injection: two-party producer / simulated network / consumer run with seeded transfer and line faults, plus Sphinx as third reader',
+   text='Core claim. Producer: real pydoctor documents a generated project (hidden/private objects, re-exports, nested classes, duplicates) and writes objects.inv. Network: a simulated urllib3 pool under the real requests + CacheControl + FileCache stack serves those bytes, or synthetic inventories (names with spaces, $ shorthand, non-Python domains), under a seeded fault plan: connection drop, timeout, HTTP error pages, empty body, truncation, reset or short Content-Length mid-body, bit flips, wrong compression, damaged header, 1-byte reads, transport gzip, garbage, non-UTF-8 bytes, and 1-3 line-level faults from 16 mangling operators, with an empty, corrupt or disabled cache and optional second runs. Consumer: driver.get_system (or main) with --intersphinx. Oracle: never raises; a transfer unusable as a whole (decided by the harness on the bytes delivered) is reported in section sphinx; every untouched py: line resolves through getLink to base/location with $ expanded. Round trip: names and locations read by pydoctor and by Sphinx InventoryFile equal the visible reachable objects, each page and anchor exists. Thorough tier enumerates every truncation offset and header/zlib-prefix bit flips of small inventories.',
+   note='Cache expiry is outside the statement and not judged. One abort (IndexError on a line cut after the priority column) was repaired in /repo.', ref='DESIGN.md 3/C17'),
  'C18': dict(cat='exploration', tech='deterministic simulation: seeded hash seed / directory-listing order / clock / output-history variants of full runs, byte comparison of output trees',
    text='Core claim. Each world (generated multi-root projects and copies of the maintainers\' test packages, with swarm-chosen options) is rendered by the real CLI entry point in a fresh interpreter per run: a reference run (hash seed 0, natural listing, clock T0, empty output directory) and variants that change one dimension at a time (PYTHONHASHSEED, per-directory listing permutation incl. pydoctor\'s own theme/extension directories, simulated now 1970-2100 + time zone, re-run into a directory holding a previous result made under the same or another seed) and then all at once; sources, options and build time (SOURCE_DATE_EPOCH or --buildtime) are equal. Oracle: same paths, same bytes, same symlink targets.',
    note='In-process reuse (process-global id counters) is deliberately not compared: the property quantifies over hash seed, listing order and output-directory state. One defect (project name guessed from a set) was repaired in /repo.', ref='DESIGN.md 3/C18'),
